@@ -16,6 +16,8 @@ def run(ctx, R, tier):
     tween(F, R)
     clock_rules(F, R)
     start_time_rule(F, R)
+    from .c03 import waiting_cancel
+    waiting_cancel(F, R)
     from .c06 import ungated
     ungated(F, R, rule='B.C05.speed-ungated')
     torn(F, R)
